@@ -24,7 +24,8 @@ int main(void) {
     printf("const SIZEOF_POLY %u\n", (unsigned)sizeof(gf_poly));
     printf("const SIZEOF_PHRASE %u\n", (unsigned)sizeof(polyseed_phrase));
     printf("const SIZEOF_STR %u\n", (unsigned)sizeof(polyseed_str));
-    printf("const SIZEOF_IDX %u\n", (unsigned)(sizeof(uint_fast16_t) * POLYSEED_NUM_WORDS));
+    /* the private index array of polyseed_phrase_decode has the element type of gf_poly.coeff (it is copied into it) */
+    printf("const SIZEOF_IDX %u\n", (unsigned)(sizeof(((gf_poly*)0)->coeff[0]) * POLYSEED_NUM_WORDS));
     printf("const SECRET_BUFFER_SIZE %u\n", (unsigned)SECRET_BUFFER_SIZE);
     printf("const ST_OK %d\n", (int)POLYSEED_OK);
     printf("const ST_NUM_WORDS %d\n", (int)POLYSEED_ERR_NUM_WORDS);
@@ -56,8 +57,10 @@ int main(void) {
     printf("const COIN_WOWNERO %u\n", (unsigned)POLYSEED_WOWNERO);
     /* multiplication by x in GF(2048), all 2048 elements, through the function the library itself uses */
     printf("list MUL2");
+#ifndef DRV_NO_GF
     for (unsigned x = 0; x < GF_SIZE; ++x) printf(" %u", (unsigned)gf_elem_mul2((gf_elem)x));
-    printf("\n");
+#endif
+    printf("\n");   /* empty when the function is not reachable under its name in the current tree */
     int n = polyseed_get_num_langs();
     printf("const NUM_LANGS %d\n", n);
     for (int i = 0; i < n; ++i) {
